@@ -11,12 +11,12 @@ Open Scope N_scope.
 Theorem C14_ast_builder_total_and_clean : forall fixed f ts, clean (to_ast fixed f ts).
 Proof. exact to_ast_clean. Qed.
 
-(* For every input string, configuration, variable list and classifier: an internal exception class n escapes only as
-   n = 5 (model stuck on ill-sorted operands) or n = 6 (KeyError for '.' with include_intercept=False: recorded finding). *)
+(* For every input string, configuration, variable list and classifier: no internal exception class escapes; the only internal
+   outcome of the MODEL is its stuck marker 5 (an operator applied to ill-sorted operands, e.g. a structured value inside ':'). *)
 Theorem C14_internal_errors_do_not_escape : forall fixed intercept f av bad pn pv cl s n,
   fragments_only_syntax_errors bad ->
   get_terms fixed intercept f av bad pn pv cl s = inr (EInternal n) ->
-  n = 5%nat \/ (n = 6%nat /\ intercept = false).
+  n = 5%nat.
 Proof. exact get_terms_internal_errors. Qed.
 
 (* A plain SyntaxError only when an embedded Python fragment is itself syntactically invalid. *)
@@ -41,11 +41,11 @@ Theorem C14_operator_table_is_the_code's : forall two parts stage,
   map raw_of (table {| f_two := two; f_parts := parts; f_stage := stage |}) = raw_table two parts stage.
 Proof. exact table_matches_generated. Qed.
 
-(* the full-strength statement (no exception class at all) is false of the faithful model: witness "y ~ ." *)
-Example C14_dot_without_intercept_refuted :
-  get_terms true false {| f_two := true; f_parts := true; f_stage := false |} (Some [[97]]) [] [] [] (classify_with [])
-            [121; 32; 126; 32; 46] = inr (EInternal 6).
-Proof. vm_compute. reflexivity. Qed.
+(* "y ~ ." with include_intercept=False used to escape as KeyError (class 6); since the repair in /repo it parses *)
+Example C14_dot_without_intercept_parses :
+  exists v, get_terms true false {| f_two := true; f_parts := true; f_stage := false |} (Some [[97]]) [] [] [] (classify_with [])
+            [121; 32; 126; 32; 46] = inl v.
+Proof. eexists. vm_compute. reflexivity. Qed.
 (* non-vacuity: the same string parses under the default configuration *)
 Example C14_example_parses :
   exists v, get_terms true true {| f_two := true; f_parts := true; f_stage := false |} (Some [[97]]) [] [] [] (classify_with [])
@@ -60,5 +60,5 @@ Print Assumptions C14_twosided_off.
 Print Assumptions C14_multipart_off.
 Print Assumptions C14_multistage_off.
 Print Assumptions C14_operator_table_is_the_code's.
-Print Assumptions C14_dot_without_intercept_refuted.
+Print Assumptions C14_dot_without_intercept_parses.
 Print Assumptions C14_example_parses.
